@@ -1286,6 +1286,11 @@ class Interp:
         clo._kw_default_values = {}
         return clo
 
+    def e_NamedExpr(self, e, fr):
+        v = self.eval(e.value, fr)
+        self.assign(e.target, v, fr)
+        return v
+
     def e_IfExp(self, e, fr):
         if self.truth(self.eval(e.test, fr), f"ifexp@{fr.func.__name__}:{e.lineno}"):
             return self.eval(e.body, fr)
